@@ -29,7 +29,8 @@ META = {
                    "frames; every path = an equivalence class of frames decoded the same way; obligations "
                    "(bit-identical frame, same width, str() works, decode twice agrees, no class-level "
                    "state written) are unsat queries under the path condition",
-    "bounds": ["all 2^16 16-bit frames x device types 0..255", "all 2^24 24-bit frames, no map",
+    "bounds": ["real mapper case: events from a short address in both the device/instance and the device scheme",
+               "all 2^16 16-bit frames x device types 0..255", "all 2^24 24-bit frames, no map",
                "all device/instance-scheme event frames x a map with one symbolic entry "
                "(short address 0..63, instance 0..31, type 0..255) or none",
                "widths 1..64 other than 16/24 with fully symbolic data",
